@@ -115,6 +115,41 @@ theorem merge_keys {c : LitCfg} {e : EqEnv} {sets : List Fields} {fields : Field
   refine ⟨hk, hk ▸ nodup_dedupStr _, fun k => ?_⟩
   rw [hk, mem_dedupStr, List.mem_flatMap]
 
+/-- `optimize_type` keeps a `DOptional` at the top -/
+theorem optimize_opt_isOpt {cfg : GenCfg} {e : EqEnv} {fuel : Nat} {x t : Ty}
+    (h : optimize cfg e fuel (.opt x) = .ok t) : t.isOpt = true := by
+  cases fuel with
+  | zero => simp [optimize] at h
+  | succ n =>
+    rw [optimize, Except.bind_ok_iff] at h
+    obtain ⟨y, _, h⟩ := h
+    split at h <;> (rw [Except.pure_ok_iff] at h; subst h; rfl)
+
+/-- **C02.1 at the level of `generate`** (direction ⇐): a key missing from some sample object is an
+    `Optional` field of the root model — the `DOptional` of the merge survives `optimize_type`. -/
+theorem generate_opt_of_absent {cfg : GenCfg} {o : GenOracles} {samples : List Json} {fs : Fields}
+    (h : generate cfg o samples = .ok (.obj fs)) {k : String} {t : Ty} (hm : (k, t) ∈ fs)
+    {kvs : List (String × Json)} (hv : Json.obj kvs ∈ samples) (hk : k ∉ kvs.map (·.1)) :
+    t.isOpt = true := by
+  unfold generate at h
+  rw [Except.bind_ok_iff] at h
+  obtain ⟨sets, h1, h⟩ := h
+  rw [Except.bind_ok_iff] at h
+  obtain ⟨fields, h2, h⟩ := h
+  obtain ⟨n, fs', _, ht, _, hr⟩ := optimize_obj h
+  cases ht
+  obtain ⟨⟨k0, t0⟩, hm0, hk0, ho⟩ := forall₂_mem_right hr hm
+  simp only at hk0 ho
+  subst hk0
+  have habs : AbsentIn sets k := by
+    obtain ⟨s, hs, hc⟩ := mapM_ok_mem_left h1 hv
+    refine ⟨s, hs, ?_⟩
+    rw [convert] at hc
+    rw [convertFields_keys hc]; exact hk
+  have hopt := mergeFieldSets_opt_of_absent h2 hm0 habs
+  cases t0 <;> simp [Ty.isOpt] at hopt
+  exact optimize_opt_isOpt ho
+
 /-! ## 2. `mkUnion_members_subset` -/
 
 /-- **C02.2** every member of `DUnion(*ts)` is a non-literal flattened member of `ts`; or the folded
